@@ -4,6 +4,7 @@ import itertools
 import z3
 from pyvc import contract as C
 from pyvc.contract import Contract, register, lemma
+import contracts.registry as registry        # noqa: F401  index registry (props C08, C19)
 from pyvc.values import (Struct, Sym, PList, PDict, KDict, term, wrap, zand, zor, znot, zeq,
                          Unsupported)
 from spec.idx import IdxSort, new_index
@@ -14,6 +15,7 @@ ASSUMPTIONS = [
     "concrete-shape proof: index maps with 1-3 entries (keys pairwise different objects, values arbitrary: chains, cycles, many-to-one, identity entries) and 1-3 transpositions; index identities symbolic",
     "get_lowest_avail_indices, split_idx_string, substitute_contracted / substitute_with_generic, minimize_tensor_indices and the index registry are only covered by bounded stand-ins (runtime/c08.py)",
 ]
+ASSUMPTIONS = ASSUMPTIONS + registry.ASSUMPTIONS
 TRUSTED = []
 
 
